@@ -94,6 +94,11 @@ TEMPLATES["graph"] = dict(
          lambda k: [("if", ("bin", "<", F("b", "val"), I(2)), [("opassign", F("b", "val"), "*=", I(2))], None)],
          ("opassign", F("a", "val"), "/=", I(2)), ("opassign", F("b", "val"), "%=", I(2)),
          ("opassign", F(F("a", "leaf"), "n"), "%=", I(2)),
+         # op-assignment whose target path runs a method / function (inc is not idempotent): the path is evaluated once, the field is read from and
+         # written to the same object
+         ("opassign", F(M("a", "inc"), "val"), "%=", I(3)), ("opassign", F(F(M("c", "inc"), "leaf"), "n"), "%=", I(2)),
+         lambda k: [("if", ("bin", "<", F("b", "val"), I(3)), [("opassign", F(M("a", "other", V("b")), "val"), "+=", I(1))], None)],
+         lambda k: [("if", ("bool", True), [("opassign", F(call("pick", V("a"), V("b"), ("bool", False)), "val"), "/=", I(2))], None)],   # a line must not start with `(`
          ("setfield", V("a"), "tags", F("b", "tags")), ("expr", M("b", "adopt", V("a"))), ("expr", M("a", "reset")), ("expr", M("c", "copytags")),
          ("print", F("a", "val")), ("print", F("c", "tags")), ("setfield", V("a"), "val", I(2)), ("setfield", V("c"), "val", I(0)),
          ("expr", M(F("a", "leaf"), "bump")), ("print", F(F("b", "leaf"), "n")), ("setfield", V("b"), "leaf", F("a", "leaf")),
@@ -181,7 +186,7 @@ class C08(EHistCheck):
     thorough_cap_s = 40 * 60
     rule = ("breadth-first search over histories of constructions, aliasings, passing to / returning from functions, storing in / reading "
             "from a list, method calls (incl. a method returning Self, chained calls - also through methods declared -> Self that return another object -, a method calling another method), field reads and "
-            "writes (scalar, list, optional-class and class fields; a list field is shared with another object's, replaced by a fresh empty list and by a clone of itself; every op-assignment operator through a field path) and `is` tests on two class graphs (Node/Leaf with a self-referential "
+            "writes (scalar, list, optional-class and class fields; a list field is shared with another object's, replaced by a fresh empty list and by a clone of itself; every op-assignment operator through a field path, also through paths that run a non-idempotent method or a function) and `is` tests on two class graphs (Node/Leaf with a self-referential "
             "optional link and a shared sub-object; Pair/Leaf with object-valued constructor parameters, swapping and fresh sub-objects; Mem, whose constructor "
             "lets `self` escape into the field of a partner object passed in); "
             "model = reference interpreter with records of cells; states de-duplicated on the values of observer expressions that expose "
